@@ -45,7 +45,8 @@ def make_ds(n, with_pre=True):
          'y': (np.arange(n * 6, dtype=np.float32).reshape(n, 2, 3) + 1)}
   keep = {k: v.copy() for k, v in raw.items()}
   if with_pre:
-    pre = cds.BatchPreprocessor([lambda e: {**e, 'z': e['x'] * 2}])
+    # a chain of per-example preprocessors that does NOT map 0 to 0 (padding is added after preprocessing: padded rows are 0)
+    pre = cds.BatchPreprocessor([lambda e: {**e, 'z': e['x'] * 2 + 7}, lambda e: {**e, 'u': e['z'] - 1}])
   else:
     pre = cds.NoOpBatchPreprocessor
   return cds.ClientDataset(raw, pre), keep, with_pre
@@ -54,7 +55,8 @@ def make_ds(n, with_pre=True):
 def expected(keep, with_pre):
   out = dict(keep)
   if with_pre:
-    out['z'] = keep['x'] * 2
+    out['z'] = keep['x'] * 2 + 7
+    out['u'] = out['z'] - 1
   return out
 
 
